@@ -82,11 +82,13 @@ ShadowCase(x) ==
 (* Shadow, second shape: the line of the shadow store is already Modified in some L1 (an earlier   *)
 (* load + store), k independent ALU instructions vary the dispatch alignment, the jump is always   *)
 (* taken; third shape: the shadow holds a jump whose target lies BEYOND the target of the branch.  *)
-Shadow2Cases == { <<"warm", k, br, st>> : k \in 0 .. 6, br \in {"beq", "j"}, st \in {Sw("t1", "a0", 48), Sb("t1", "a0", 33), Sh("t1", "a0", 50)} }
+Shadow2Cases == { <<"warm", k, br, st>> : k \in 0 .. 6, br \in {"beq", "j"}, st \in {Sw("t1", "a1", 48), Sb("t1", "a1", 33), Sh("t1", "a1", 50)} }
                 \cup { <<"far", k, br, Nop>> : k \in 0 .. 3, br \in {"bnez", "blt", "bgeu"} }
 Shadow2Case(x) ==
   LET fill == [i \in 1 .. x[2] |-> I("sub", "t2", "t1", "t3", 0, 0)]
-      pre == IF x[1] = "warm" THEN <<Lw("t2", "a0", 32), Sw("t2", "a0", 40)>> \o fill ELSE <<Lw("t0", "a0", 0)>> \o fill
+      \* warm: two loads occupy two cores, a dependent add waits for both, a store makes line 128 Modified in one L1
+      pre == IF x[1] = "warm" THEN <<Lw("t0", "a0", 0), Lw("t2", "a1", 32), AddI("t2", "t0", "t2"), Sw("t1", "a1", 40)>> \o fill
+             ELSE <<Lw("t0", "a0", 0)>> \o fill
       nb == Len(pre)                                     \* 0-based index of the branch
       br == CASE x[3] = "beq" -> B("beq", "zero", "zero", nb + 3) [] x[3] = "j" -> J(nb + 3)
               [] x[3] = "bnez" -> B("bnez", "t0", "zero", nb + 2) [] x[3] = "blt" -> B("blt", "t3", "t0", nb + 2)
